@@ -28,6 +28,17 @@ type loopOutcome struct {
 	why  string
 }
 
+// dictValue: the value stored under a key of the dictionary operand of the table.  The entry
+// whose key ends in "nil" holds the nil object (in this interpreter a valid PostScript object:
+// the file object of `currentfile`, the initial element of `n array`); it is an entry like any
+// other and must be visited.
+func dictValue(key string) sv {
+	if strings.HasSuffix(key, "nil") {
+		return sv{k: svNil}
+	}
+	return symV("val:" + key)
+}
+
 func (c *Ctx) loopOperator(fn *ssa.Function, stack []sv, results []string, dictKeys []string) loopOutcome {
 	ia := c.interp()
 	var out loopOutcome
@@ -81,11 +92,11 @@ func (c *Ctx) loopOperator(fn *ssa.Function, stack []sv, results []string, dictK
 			case len(args) >= 1 && args[0].s == "next":
 				if nextKey < len(dictKeys) {
 					nextKey++
-					return sv{k: svTuple, tup: []sv{boolV(true), {k: svString, s: dictKeys[nextKey-1]}, symV("val:" + dictKeys[nextKey-1])}}, true
+					return sv{k: svTuple, tup: []sv{boolV(true), {k: svString, s: dictKeys[nextKey-1]}, dictValue(dictKeys[nextKey-1])}}, true
 				}
 				return sv{k: svTuple, tup: []sv{boolV(false), {k: svNil}, {k: svNil}}}, true
 			case len(args) == 3 && args[0].s == "lookup" && args[2].k == svString:
-				return sv{k: svTuple, tup: []sv{symV("val:" + args[2].s), boolV(true)}}, true
+				return sv{k: svTuple, tup: []sv{dictValue(args[2].s), boolV(true)}}, true
 			}
 			return sv{}, false
 		}
@@ -117,6 +128,19 @@ func (c *Ctx) loopOperator(fn *ssa.Function, stack []sv, results []string, dictK
 			el, _ := ev.elems(args[0])
 			sort.SliceStable(el, func(i, j int) bool { return el[i].s < el[j].s })
 			return sv{}, true
+		case n == "maps.Keys" && len(args) == 1 && args[0].k == svSym && typeOf(args[0]) == "Dict":
+			// the iterator over the keys of the dictionary operand (in map order, i.e. any order)
+			return sv{k: svSym, s: "keys(" + args[0].s + ")", op: "mapkeys"}, true
+		case (n == "slices.Collect" || n == "slices.Sorted") && len(args) == 1 && args[0].op == "mapkeys":
+			// the stdlib forms of "collect the keys (and sort them)"
+			var el []sv
+			for _, k := range dictKeys {
+				el = append(el, sv{k: svString, s: k})
+			}
+			if n == "slices.Sorted" {
+				sort.SliceStable(el, func(i, j int) bool { return el[i].s < el[j].s })
+			}
+			return ev.newList(el), true
 		case n == "builtin len" && len(args) == 1 && args[0].k == svSym:
 			return intV(int64(len(dictKeys))), true
 		}
@@ -178,7 +202,7 @@ func (c *Ctx) loopOperatorRules() {
 		{op: "loop", kind: "", stack: []sv{keep, proc}, want: []string{"[Integer:keep]", "[Integer:keep]", "[Integer:keep]"}},
 		{op: "forall", kind: " (array)", stack: []sv{keep, {}, proc}, lists: map[int][]sv{1: {symV("Name:a"), symV("Name:b"), symV("Name:c")}}, want: []string{"[Integer:keep Name:a]", "[Integer:keep Name:a Name:b]", "[Integer:keep Name:a Name:b Name:c]"}},
 		{op: "forall", kind: " (string)", stack: []sv{keep, {}, proc}, strs: map[int]string{1: "x\xe9z"}, want: []string{"[Integer:keep 120]", "[Integer:keep 120 233]", "[Integer:keep 120 233 122]"}},
-		{op: "forall", kind: " (dictionary)", stack: []sv{keep, obj("Dict", "d"), proc}, keys: []string{"k2", "k1", "k3"}, want: []string{`[Integer:keep "k1" val:k1]`, `[Integer:keep "k1" val:k1 "k2" val:k2]`, `[Integer:keep "k1" val:k1 "k2" val:k2 "k3" val:k3]`}},
+		{op: "forall", kind: " (dictionary)", stack: []sv{keep, obj("Dict", "d"), proc}, keys: []string{"k2nil", "k1", "k3"}, want: []string{`[Integer:keep "k1" val:k1]`, `[Integer:keep "k1" val:k1 "k2nil" nil]`, `[Integer:keep "k1" val:k1 "k2nil" nil "k3" val:k3]`}},
 	}
 	build := func(i int, results []string) loopOutcome {
 		cs := cases[i]
